@@ -39,7 +39,7 @@ CLASSES = ["contracts.C02_gate:ChoiFromHs", "contracts.C02_gate:HsFromChoi",
            "contracts.C02_povm:PovmRoundTrip", "contracts.C02_povm:PovmTupleIndex",
            "contracts.C02_gate:HsFromChoiTruncating", "contracts.C02_gate:ChoiVar", "contracts.C02_gate:HsFromKraus",
            "contracts.C02_gate:ConvertHs", "contracts.C02_gate:ProcessMatrix",
-           "contracts.C02_misc:ConvertVec", "contracts.C02_misc:MProcessConversions", "contracts.C02_misc:Linearity", "contracts.C02_misc:CompBasis", "contracts.C02_gate:KrausRoundTrip"]
+           "contracts.C02_misc:ConvertVec", "contracts.C02_misc:MProcessConversions", "contracts.C02_misc:Linearity", "contracts.C02_misc:CompBasis", "contracts.C02_gate:KrausRoundTrip", "contracts.C02_tables:LazyTables"]
 
 
 def jobs(tier, seed):
